@@ -404,6 +404,33 @@ func cmdCheck(args []string) int {
 			replayNotes = append(replayNotes, kf.Obligation+": witness passes on this tree (stale)")
 		}
 	}
+	// repaired defects that no obligation expresses (a fatal stack overflow, say): their witnesses are replayed on every
+	// run; a fixed entry suppresses nothing - if the witness fails again, that is a violation with a failing input
+	for _, raw := range known.Fixed {
+		var fx knownFinding
+		if json.Unmarshal(raw, &fx) != nil || fx.Property != *prop || !fx.ReplayOnly || fx.WitnessPkg == "" {
+			continue
+		}
+		pass, out := runWitness(*verif, *repo, fx.WitnessPkg, fx.WitnessRun)
+		if pass {
+			replayNotes = append(replayNotes, fx.Obligation+": witness of the repaired defect passes")
+			continue
+		}
+		violations++
+		path := filepath.Join(replayDir, *prop+"-"+sanitize(fx.Obligation)+".json")
+		rp := map[string]interface{}{"property": *prop, "obligation": fx.Obligation, "kind": "replay of a repaired defect", "reproduced": true,
+			"replay_test": map[string]string{"package": fx.WitnessPkg, "run": fx.WitnessRun, "files": filepath.Join(*verif, "witnesses", fx.WitnessPkg)}, "replay_output": trunc(out, 4000),
+			"note": "the witness of a defect that was repaired fails again on this tree"}
+		suffix := ""
+		if strings.Contains(out, "[build failed]") || strings.Contains(out, "[setup failed]") {
+			rp["reproduced"] = false
+			rp["note"] = "the witness of a repaired defect could not be built against this tree; nothing was replayed"
+			suffix = " no-failing-input-found"
+		}
+		rb, _ := json.MarshalIndent(rp, "", " ")
+		os.WriteFile(path, rb, 0o644)
+		fmt.Printf("VIOLATION property=%s replay=%s obligation=%s%s\n", *prop, path, fx.Obligation, suffix)
+	}
 	// bounded stand-in (if any)
 	var boundedStats map[string]interface{}
 	if b, ok := boundedOf[*prop]; ok {
